@@ -158,6 +158,8 @@ class Tr:
         self.binops = spec.get("binops", {})             # (type, op, type) -> (coq function, type)
         self.effects = spec.get("effects", {})           # unparsed callee -> dict(var, args, update)
         self.enums = spec.get("enums", {})               # type -> (eqb, {literal: constructor})
+        self.tuples = spec.get("tuples", {})             # type -> [component types] (a left-nested Coq product)
+        self.pops = spec.get("pops", {})                 # unparsed callee -> dict(arg, var, result, update, ret)
         self.types = dict(COQ_TYPE)
         self.types.update(spec.get("types", {}))
         self.defaults = {"IVL": "(mkI None None Plain)", "Z": "0"}
@@ -389,6 +391,12 @@ class Tr:
             raise Unsupported("empty list of unknown type (annotate it)")
         if isinstance(e, ast.Subscript):
             xs, xty = self.expr0(e.value, env)
+            if xty in self.tuples:
+                comps = self.tuples[xty]
+                if not (isinstance(e.slice, ast.Constant) and isinstance(e.slice.value, int)
+                        and 0 <= e.slice.value < len(comps)):
+                    raise Unsupported("tuple subscript that is not a constant index in range")
+                return self.tuple_item(xs, len(comps), e.slice.value), comps[e.slice.value]
             if not self.is_list(xty):
                 raise Unsupported(f"subscript of {xty}")
             ity = self.item_of(xty)
@@ -397,6 +405,14 @@ class Tr:
             i, _ = self.expr(e.slice, env, "Z")
             return f"(py_index {self.defaults[ity]} {xs} {i})", ity
         raise Unsupported(f"expression {type(e).__name__}: {ast.unparse(e)}")
+
+    @staticmethod
+    def tuple_item(x, n, i):
+        """component i of the left-nested product (a0, a1, .., a(n-1))"""
+        t = x
+        for _ in range(n - 1 - i if i > 0 else n - 1):
+            t = f"(fst {t})"
+        return t if i == 0 else f"(snd {t})"
 
     def compare(self, e, env):
         if len(e.ops) == 2 and all(isinstance(o, (ast.Lt, ast.LtE)) for o in e.ops):
@@ -662,6 +678,8 @@ class Tr:
                 out.append(k)
         for sub in ast.walk(ast.Module(body=list(stmts), type_ignores=[])):
             if isinstance(sub, ast.Assign):
+                if isinstance(sub.value, ast.Call) and ast.unparse(sub.value.func) in self.pops:
+                    add("@" + self.pops[ast.unparse(sub.value.func)]["var"])
                 for t in sub.targets:
                     if isinstance(t, ast.Tuple):
                         for el in t.elts:
@@ -718,6 +736,8 @@ class Tr:
             return self.block(rest, env, fin, ind)
         if isinstance(s, ast.AugAssign):
             s = ast.Assign(targets=[s.target], value=ast.BinOp(left=self.as_load(s.target), op=s.op, right=s.value))
+        if isinstance(s, ast.Assign) and isinstance(s.value, ast.Call) and ast.unparse(s.value.func) in self.pops:
+            return self.pop_assign(s, rest, env, fin, ind)
         if isinstance(s, (ast.Assign, ast.AnnAssign)):
             if isinstance(s, ast.Assign):
                 if len(s.targets) != 1:
@@ -766,6 +786,9 @@ class Tr:
                 return self.assign(key, f"({cname(key)} ++ [{x}])", env[key], env, pad, rest, fin, ind)
             if c.keywords or len(c.args) != len(how.get("args", [])):
                 raise Unsupported(f"call shape of {ast.unparse(c.func)}")
+            if how.get("raises") and how.get("must_try") and not self.in_try:
+                raise Unsupported(f"{ast.unparse(c.func)} may raise: only inside try")
+            self.in_try = False
             ts = [self.expr(a, env, t)[0] for a, t in zip(c.args, how["args"])]     # (type-checked even if unused)
             if key is None:
                 # a call the spec declares to have no effect on the modelled state (it may only raise)
@@ -800,6 +823,40 @@ class Tr:
         if isinstance(s, ast.Try):
             return self.try_stmt(s, rest, env, fin, ind)
         raise Unsupported(f"statement {type(s).__name__}: {ast.unparse(s)[:80]}")
+
+    def pop_assign(self, s, rest, env, fin, ind):
+        """x = pop(container) / a, b, c = pop(container): the value the spec gives, then the update of the
+        state variable that holds the container"""
+        pad = "  " * ind
+        c = s.value
+        ps = self.pops[ast.unparse(c.func)]
+        if c.keywords or len(c.args) != 1 or ast.unparse(c.args[0]) != ps["arg"] or len(s.targets) != 1:
+            raise Unsupported(f"call shape of {ast.unparse(c.func)}")
+        key = "@" + ps["var"]
+        if key not in env:
+            raise Unsupported(f"{ps['var']} is not a state variable")
+        val = ps["result"].format(var=ps["var"])
+        upd = ps["update"].format(var=ps["var"])
+        t = s.targets[0]
+        env2 = dict(env)
+        if isinstance(t, ast.Name):
+            env2 = self.bind(env2, t.id, ps["ret"])
+            head = f"{pad}let {cname(t.id)} := {val} in\n"
+        elif isinstance(t, ast.Tuple) and ps["ret"] in self.tuples and len(t.elts) == len(self.tuples[ps["ret"]]) \
+                and all(isinstance(el, ast.Name) for el in t.elts):
+            names = []
+            for el, ty in zip(t.elts, self.tuples[ps["ret"]]):
+                if el.id == "_":
+                    names.append("_")
+                else:
+                    if el.id in names:
+                        raise Unsupported("repeated name in a tuple target")
+                    env2 = self.bind(env2, el.id, ty)
+                    names.append(cname(el.id))
+            head = f"{pad}let '({', '.join(names)}) := {val} in\n"
+        else:
+            raise Unsupported(f"assignment target {ast.unparse(t)}")
+        return head + f"{pad}let {ps['var']} := {upd} in\n" + self.block(rest, env2, fin, ind)
 
     @staticmethod
     def as_load(t):
@@ -892,6 +949,22 @@ class Tr:
         if h.name is not None or not isinstance(h.type, ast.Name) or h.type.id not in EXCEPTIONS:
             raise Unsupported("except clause")
         b = s.body[0]
+        ef = self.effect_of(b)
+        if ef is not None and isinstance(ef[2], dict) and ef[2].get("raises"):
+            # try: <effect that raises E when its precondition fails>  except E: H
+            key, c, how = ef
+            exc, present = how["raises"]
+            if exc != h.type.id or key is None or c.keywords or len(c.args) != len(how["args"]):
+                raise Unsupported("try around an effect that is not declared to raise this exception")
+            ts = [self.expr(a, env, t)[0] for a, t in zip(c.args, how["args"])]
+            test = present.format(*ts, var=cname(key))
+            self.in_try = True
+            try:
+                ok = self.block([b] + rest, env, fin, ind + 1)
+            finally:
+                self.in_try = False
+            hb = self.block(list(h.body) + rest, env, fin, ind + 1)
+            return f"{pad}if {test} then\n{ok}\n{pad}else\n{hb}"
         if not (isinstance(b, ast.Return) and isinstance(b.value, ast.Call) and self.kind == "expr"):
             raise Unsupported("try body other than `return f(..)`")
         self.in_try = True
